@@ -179,8 +179,13 @@ def dist_case(dname, cfg, pname, train, seed, res=None):
         ctx.requires_grad_(True)
     w = pat_tensor((3,), 8, 1.0) + 1.5
 
+    has_cache = any(hasattr(mod, "use_cache") for mod in m.modules())
+
     def target():
         torch.manual_seed(3)
+        if has_cache and not train:
+            m.train()  # documented invalidation of the linear cache: the finite differences perturb parameters in place
+            m.eval()
         return (m.log_prob(x, context=ctx) * w).sum()
 
     pre = list(m.named_parameters())
